@@ -673,7 +673,7 @@ pub fn main(mut chk: Check) -> ! {
         let _ = chk.replay_one::<Case, _>("in-process", &p, oracle) || chk.replay_one::<WireCase, _>("loopback", &p, wire_oracle);
     }
     let t = chk.tier();
-    chk.run("in-process", t.pick(40_000, 1_000_000), case_strategy(), oracle);
-    chk.run("loopback", t.pick(1_500, 30_000), wire_strategy(), wire_oracle);
+    chk.run("in-process", t.pick(300_000, 2_000_000), case_strategy(), oracle);
+    chk.run("loopback", t.pick(4_000, 30_000), wire_strategy(), wire_oracle);
     chk.finish()
 }
